@@ -66,4 +66,5 @@ func main() {
 	genBaked()
 	genSszPrograms(repo)
 	genTables()
+	genSkeletons(repo)
 }
